@@ -1,6 +1,11 @@
-/- line-protocol driver for C09: `drv_c09 <sub-command>` reads operations on stdin, prints one canonical line per operation.
+/- line-protocol driver for C09: `drv_c09 expand` (model of preprocess.c) | `drv_c09 spec` (C11 6.10.3 specification).
    Core Lean only (nothing imported here may import Mathlib, or the executable will not link). -/
+import ChibiVerif.Driver.PPCmd
 
 def main (args : List String) : IO UInt32 := do
-  IO.eprintln s!"drv_c09: no sub-commands yet (args {args})"
-  return 2
+  match args with
+  | "expand" :: _ => ChibiVerif.Driver.ppMain false
+  | "spec" :: _ => ChibiVerif.Driver.ppMain true
+  | _ =>
+    IO.eprintln "usage: drv_c09 expand|spec"
+    return 2
